@@ -9,6 +9,15 @@
 //! sent so far was received), MAYV_AGAIN=1 (after Disconnected the receiver calls
 //! again), MAYV_SCHED=narrow|wide|mpmc (schedule points: the sync layer only = atomic queue operations, every
 //! hooked access incl. the queue internals, or src/sync/mpmc.rs only = atomic semaphore calls).
+//! MAYV_RXCANCEL=1|2: receiver 0 is a coroutine and is CANCELLED by main at a seeded moment (blocked in recv / recv_timeout,
+//! about to block, or between calls); the senders keep their Sender alive until the cancelled coroutine has been joined
+//! (1: the cancel itself must end the blocked call) or until cancel() has returned (2: spsc, whose Park does not register
+//! with the cancel data - the cancel is found when a send / the sender's drop resumes the coroutine; 3: the cancel is sent
+//! only when the target is certainly suspended in its blocking call - everything sent has been received and virtual time
+//! has passed; spsc: senders released after cancel() as in 2).  The Receiver is owned by the coroutine: the unwinding
+//! drops it (drop_port / drop_rx).
+//! MAYV_SPUR=n (spsc, thread receiver): a noise thread unparks the receiver's OS thread up to n times at seeded moments -
+//! for the receiver these are spurious returns of std::thread::park().
 //!
 //! Oracles on the implementation (independent of the Coq models); payloads are tagged (handle, seq)
 //! and count their own drops:
@@ -23,11 +32,17 @@
 //!    is gone (received or dropped) when that drop returns;
 //!  * MAYV_HOLD: with every sender idle but alive, everything sent is received (the receiver is
 //!    woken by the send itself, not by a later send or by the disconnect).
+//!  * MAYV_RXCANCEL: the join of the cancelled receiver returns Err with the Cancel payload (not a message, not Ok) while
+//!    every Sender is still alive; nothing is lost: the accounting oracle above holds (what the cancelled receiver did not
+//!    take is received by another receiver or dropped exactly once by the channel); mpmc: the other receivers get
+//!    everything else and all see Disconnected (a permit granted to the cancelled waiter is passed on).
+//!  * recv_timeout never answers Timeout before `timeout` has passed since the call (virtual clock).
 //!
 //! Trace records for the acceptors (kind, obj, val): chan.new; send.call(h, seq) send.ret(h, ok);
 //! clone.call(h, newh) clone.ret(h, newh); dropc.call(h) dropc.ret(h); try.call try.ret(k, v);
 //! recv.call(co | r<<1) recv.ret(k, v); rt.call(co | r<<1, dur) rt.ret(k, v); dropp.call(r<<1) dropp.ret; clonerx.call(r, r2) clonerx.ret;
-//! k: 0 Ok, 1 Empty, 2 Disconnected, 4 Timeout; v = h * 1000 + seq.
+//! k: 0 Ok, 1 Empty, 2 Disconnected, 4 Timeout, 5 left by the Cancel panic; v = h * 1000 + seq.
+//! clk(now_ns) is logged right before rt.call and right before rt.ret: the virtual clock for the timed models.
 use mayv::*;
 use std::alloc::{GlobalAlloc, Layout, System};
 use std::sync::atomic::{AtomicI64, AtomicU64, AtomicUsize, Ordering::SeqCst};
@@ -76,6 +91,9 @@ static NOK: AtomicU64 = AtomicU64::new(0); // sends that returned Ok
 static NRECV: AtomicU64 = AtomicU64::new(0);
 static NDISC: AtomicU64 = AtomicU64::new(0);
 static SNAP: std::sync::Mutex<Vec<(usize, usize)>> = std::sync::Mutex::new(Vec::new());
+static RELEASE: AtomicU64 = AtomicU64::new(0); // MAYV_RXCANCEL: the senders may drop their Sender now
+static RXTHREAD: std::sync::Mutex<Option<may::verif::thread::Thread>> = std::sync::Mutex::new(None); // MAYV_SPUR
+static RXDONE: AtomicU64 = AtomicU64::new(0);
 
 struct P {
     h: u32,
@@ -280,6 +298,22 @@ fn sender(h: u64, tx: Tx, msgs: u64, clones: bool, seed: u64) {
             }
         }
     }
+    // MAYV_RXCANCEL: no Disconnected (and no wake-up by a drop) before the cancel has done its work
+    if envn("MAYV_RXCANCEL", 0) != 0 {
+        let mut rounds = 0;
+        while RELEASE.load(SeqCst) == 0 {
+            rounds += 1;
+            if rounds > 300 {
+                c.fail("the cancelled receiver was not joined within 300 ms of virtual time although every Sender is alive".into());
+                break;
+            }
+            if may::coroutine::is_coroutine() {
+                may::coroutine::sleep(Duration::from_millis(1));
+            } else {
+                c.sleep_ns(1_000_000);
+            }
+        }
+    }
     // the drop of this Sender lands at a seeded moment of what the receivers are doing
     let spin = envn("MAYV_DROPSPIN", 0);
     if spin > 0 {
@@ -295,6 +329,67 @@ struct RxPlan {
     drop_after: u64, // 0 = until Disconnected
     again: bool,
     single: bool, // single receiver kind: per-sender sequences have no gaps
+}
+
+/// logs `<kind>(5, 0)` when the call it guards is left by unwinding (the Cancel panic of a cancelled coroutine)
+struct InCall {
+    kind: &'static str,
+    armed: bool,
+    clk: bool,
+}
+impl InCall {
+    fn new(kind: &'static str, clk: bool) -> InCall {
+        InCall { kind, armed: true, clk }
+    }
+    fn done(mut self) {
+        self.armed = false;
+    }
+}
+impl Drop for InCall {
+    fn drop(&mut self) {
+        if self.armed {
+            let c = mayv::ctx();
+            if self.clk {
+                c.log("clk", c.now(), 0, None);
+            }
+            c.log(self.kind, 5, 0, None);
+        }
+    }
+}
+
+/// the Receiver with the bookkeeping of its drop: also runs when the owning coroutine is cancelled
+struct RxGuard {
+    rx: Option<Rx>,
+    kk: u64,
+}
+impl Drop for RxGuard {
+    fn drop(&mut self) {
+        let c = mayv::ctx();
+        // what was sent Ok before every Receiver's drop had begun must be gone once all these drops returned
+        if RX_LOWER.fetch_sub(1, SeqCst) == 1 {
+            let mut before = vec![];
+            for h in 0..MAXH {
+                for i in 0..MAXI {
+                    if OKSENT[h][i].load(SeqCst) == 1 {
+                        before.push((h, i));
+                    }
+                }
+            }
+            *SNAP.lock().unwrap() = before;
+        }
+        c.log("dropp.call", self.kk, 0, None);
+        drop(self.rx.take());
+        c.log("dropp.ret", 0, 0, None);
+        if RX_UPPER.fetch_sub(1, SeqCst) == 1 {
+            for (h, i) in SNAP.lock().unwrap().iter().copied() {
+                if RECEIVED[h][i].load(SeqCst) + DROPS[h][i].load(SeqCst) == 0 {
+                    c.fail(format!("({h},{i}) was sent before the last Receiver was dropped and is still alive after that drop returned"));
+                    break;
+                }
+            }
+        }
+        RXDONE.fetch_add(1, SeqCst);
+    }
 }
 
 fn got(c: &Ctx, mut p: P, last: &mut [i64; MAXH], single: bool) {
@@ -334,6 +429,11 @@ fn receiver(k: u64, rx: Rx, plan: RxPlan, seed: u64) {
     let co = may::coroutine::is_coroutine() as u64;
     // receiver handle in bits 1.. of the call events (mpmc acceptor); bit 0: coroutine
     let kk = k << 1;
+    let guard = RxGuard { rx: Some(rx), kk };
+    let rx = guard.rx.as_ref().unwrap();
+    if co == 0 && k == 0 && envn("MAYV_SPUR", 0) != 0 {
+        *RXTHREAD.lock().unwrap() = Some(may::verif::thread::current());
+    }
     let mut r = seed | 1;
     let mut last = [-1i64; MAXH];
     let mut mine = 0u64;
@@ -354,7 +454,9 @@ fn receiver(k: u64, rx: Rx, plan: RxPlan, seed: u64) {
         let out = match m {
             "try" => {
                 c.log("try.call", kk, 0, None);
+                let g = InCall::new("try.ret", false);
                 let x = rx.try_recv();
+                g.done();
                 match x {
                     Ok(p) => {
                         c.log("try.ret", 0, p.h as u64 * 1000 + p.i as u64, None);
@@ -373,8 +475,14 @@ fn receiver(k: u64, rx: Rx, plan: RxPlan, seed: u64) {
             }
             "timed" => {
                 let d = [0u64, 1_000_000, 3_000_000, 50_000][(xs(&mut r) % 4) as usize];
+                let t0 = c.now();
+                c.log("clk", t0, 0, None);
                 c.log("rt.call", co | kk, d, None);
+                let g = InCall::new("rt.ret", true);
                 let x = rx.recv_timeout(Duration::from_nanos(d));
+                g.done();
+                let t1 = c.now();
+                c.log("clk", t1, 0, None);
                 match x {
                     Ok(p) => {
                         c.log("rt.ret", 0, p.h as u64 * 1000 + p.i as u64, None);
@@ -383,6 +491,9 @@ fn receiver(k: u64, rx: Rx, plan: RxPlan, seed: u64) {
                     }
                     Err(RecvTimeoutError::Timeout) => {
                         c.log("rt.ret", 4, 0, None);
+                        if t1 - t0 < d {
+                            c.fail(format!("recv_timeout({d} ns) answered Timeout after {} ns", t1 - t0));
+                        }
                         1
                     }
                     Err(RecvTimeoutError::Disconnected) => {
@@ -393,7 +504,9 @@ fn receiver(k: u64, rx: Rx, plan: RxPlan, seed: u64) {
             }
             _ => {
                 c.log("recv.call", co | kk, 0, None);
+                let g = InCall::new("recv.ret", false);
                 let x = if m == "iter" { rx.iter_next().ok_or(()) } else { rx.recv() };
+                g.done();
                 match x {
                     Ok(p) => {
                         c.log("recv.ret", 0, p.h as u64 * 1000 + p.i as u64, None);
@@ -430,27 +543,26 @@ fn receiver(k: u64, rx: Rx, plan: RxPlan, seed: u64) {
             }
         }
     }
-    // what was sent Ok before every Receiver's drop had begun must be gone once all these drops returned
-    if RX_LOWER.fetch_sub(1, SeqCst) == 1 {
-        let mut before = vec![];
-        for h in 0..MAXH {
-            for i in 0..MAXI {
-                if OKSENT[h][i].load(SeqCst) == 1 {
-                    before.push((h, i));
-                }
-            }
+    drop(guard);
+}
+
+/// MAYV_SPUR: unparks the receiver's OS thread at seeded moments (spurious returns of its thread::park())
+fn noise(n: u64, seed: u64) {
+    let c = mayv::ctx();
+    let mut r = seed | 1;
+    for _ in 0..n {
+        for _ in 0..xs(&mut r) % 12 {
+            c.point();
         }
-        *SNAP.lock().unwrap() = before;
-    }
-    c.log("dropp.call", kk, 0, None);
-    drop(rx);
-    c.log("dropp.ret", 0, 0, None);
-    if RX_UPPER.fetch_sub(1, SeqCst) == 1 {
-        for (h, i) in SNAP.lock().unwrap().iter().copied() {
-            if RECEIVED[h][i].load(SeqCst) + DROPS[h][i].load(SeqCst) == 0 {
-                c.fail(format!("({h},{i}) was sent before the last Receiver was dropped and is still alive after that drop returned"));
-                break;
-            }
+        if xs(&mut r) % 4 == 0 {
+            c.sleep_ns(200_000);
+        }
+        if RXDONE.load(SeqCst) != 0 {
+            break;
+        }
+        let t = RXTHREAD.lock().unwrap().clone();
+        if let Some(t) = t {
+            t.unpark();
         }
     }
 }
@@ -479,8 +591,10 @@ fn main() {
     let mode = envs("MAYV_RECV", "recv");
     let clones = envn("MAYV_CLONE", 0) != 0;
     let keep = envn("MAYV_KEEP", 0) != 0 && kind != "spsc";
-    let rxdrop = envn("MAYV_RXDROP", 0);
+    let rxcancel = envn("MAYV_RXCANCEL", 0);
+    let rxdrop = if rxcancel != 0 { 0 } else { envn("MAYV_RXDROP", 0) };
     let again = envn("MAYV_AGAIN", 0) != 0;
+    let spur = if kind == "spsc" { envn("MAYV_SPUR", 0) } else { 0 };
     run(cfg, move |ctx| {
         let (tx0, rx0) = match kind.as_str() {
             "spsc" => {
@@ -536,16 +650,65 @@ fn main() {
         }
         let kept = if keep { Some(clone_tx(ctx, 0, &tx0)) } else { None };
         txs.insert(0, (0, tx0));
+        let mut target = None;
         for (k, rx) in rxs.into_iter().enumerate() {
             let plan = RxPlan { mode: mode.clone(), drop_after: rxdrop, again, single: nrecv == 1 };
             let seed = ctx.rand();
             let in_co = pick(ctx);
+            if rxcancel != 0 && k == 0 {
+                // the coroutine that will be cancelled; it owns its Receiver
+                let h = unsafe { may::coroutine::Builder::new().name("r0".into()).spawn(move || receiver(0, rx, plan, seed)).unwrap() };
+                target = Some(h);
+                continue;
+            }
             start(format!("r{k}"), in_co, Box::new(move || receiver(k as u64, rx, plan, seed)));
+        }
+        if spur > 0 {
+            let seed = ctx.rand();
+            start("noise".into(), false, Box::new(move || noise(spur, seed)));
         }
         for (h, tx) in txs {
             let seed = ctx.rand();
             let in_co = pick(ctx);
             start(format!("s{h}"), in_co, Box::new(move || sender(h, tx, msgs, clones, seed)));
+        }
+        if let Some(target) = target {
+            // the canceller: a seeded virtual time and a seeded number of schedule points, then cancel()
+            if rxcancel == 3 {
+                // only once the target is certainly suspended in its blocking call: everything sent was received
+                // and virtual time has passed since (it passes only when nobody is runnable)
+                let mut rounds = 0;
+                while NRECV.load(SeqCst) < nsend * msgs && rounds < 200 {
+                    rounds += 1;
+                    ctx.sleep_ns(1_000_000);
+                }
+                ctx.sleep_ns(2_000_000);
+            } else {
+                let when = ctx.rand() % 6;
+                if when > 0 {
+                    ctx.sleep_ns(when * 600_000);
+                }
+            }
+            for _ in 0..ctx.rand() % 60 {
+                ctx.point();
+            }
+            unsafe { target.coroutine().cancel() };
+            if rxcancel == 2 || (rxcancel == 3 && kind == "spsc") {
+                RELEASE.store(1, SeqCst);
+            }
+            match target.join() {
+                Ok(()) => ctx.fail("the cancelled receiver coroutine finished normally although every Sender was alive".into()),
+                Err(e) => {
+                    // the Cancel error is not a string payload; an ordinary panic is
+                    if let Some(m) = e.downcast_ref::<&str>().map(|s| s.to_string()).or_else(|| e.downcast_ref::<String>().cloned()) {
+                        ctx.fail(format!("the cancelled receiver ended with a panic: {m}"));
+                    }
+                }
+            }
+            if RXDONE.load(SeqCst) == 0 {
+                ctx.fail("the cancelled receiver did not drop its Receiver".into());
+            }
+            RELEASE.store(1, SeqCst);
         }
         if let Some((h, t)) = kept {
             // the last Sender may be this one: dropped by main at a seeded moment
@@ -592,8 +755,9 @@ fn main() {
                 }
             }
         }
-        if rxdrop == 0 && NDISC.load(SeqCst) < nrecv {
-            ctx.fail(format!("only {} of {nrecv} receivers saw Disconnected", NDISC.load(SeqCst)));
+        let want_disc = if rxcancel != 0 { nrecv - 1 } else { nrecv };
+        if rxdrop == 0 && NDISC.load(SeqCst) < want_disc {
+            ctx.fail(format!("only {} of {want_disc} receivers saw Disconnected", NDISC.load(SeqCst)));
         }
         println!(
             "kind={kind} created={created} ok={} received={} disconnected={} vtime={}",
